@@ -598,6 +598,35 @@ void carquet_column_release_retired_pages(carquet_column_reader_t* reader) {
 }
 
 /* ============================================================================
+ * Helper: Bounds of a page inside a memory-mapped file or buffer
+ * ============================================================================
+ *
+ * Offsets and sizes come from the file's metadata and page headers and cannot
+ * be trusted: every byte range has to be checked against the file size before
+ * it is dereferenced.
+ */
+
+/* Bytes available for a page header at `offset` (at most 256), or 0 if the
+ * offset does not lie inside the file. */
+static size_t mmap_header_window(const carquet_reader_t* file_reader, int64_t offset) {
+    if (offset < 0 || (uint64_t)offset >= (uint64_t)file_reader->file_size) {
+        return 0;
+    }
+    size_t avail = file_reader->file_size - (size_t)offset;
+    return avail < 256 ? avail : 256;
+}
+
+/* True if the page body [offset + header_size, + compressed_size) lies inside the file. */
+static bool mmap_body_in_file(const carquet_reader_t* file_reader, int64_t offset,
+                              size_t header_size, int32_t compressed_size) {
+    if (compressed_size < 0) {
+        return false;
+    }
+    size_t avail = file_reader->file_size - (size_t)offset;  /* offset checked by mmap_header_window */
+    return header_size <= avail && (size_t)compressed_size <= avail - header_size;
+}
+
+/* ============================================================================
  * Helper: Load dictionary page (mmap path)
  * ============================================================================
  */
@@ -612,18 +641,29 @@ static carquet_status_t load_dictionary_page_mmap(
 
     /* Parse page header directly from mmap */
     int64_t dict_offset = col_meta->dictionary_page_offset;
+    size_t header_avail = mmap_header_window(file_reader, dict_offset);
+    if (header_avail < 8) {
+        CARQUET_SET_ERROR(error, CARQUET_ERROR_INVALID_PAGE, "Dictionary page offset outside file");
+        return CARQUET_ERROR_INVALID_PAGE;
+    }
     const uint8_t* header_ptr = mmap_data + dict_offset;
 
     parquet_page_header_t page_header;
     size_t header_size;
     carquet_status_t status = parquet_parse_page_header(
-        header_ptr, 256, &page_header, &header_size, error);
+        header_ptr, header_avail, &page_header, &header_size, error);
     if (status != CARQUET_OK) {
         return status;
     }
 
     if (page_header.type != CARQUET_PAGE_DICTIONARY) {
         CARQUET_SET_ERROR(error, CARQUET_ERROR_INVALID_PAGE, "Expected dictionary page");
+        return CARQUET_ERROR_INVALID_PAGE;
+    }
+
+    if (!mmap_body_in_file(file_reader, dict_offset, header_size,
+                           page_header.compressed_page_size)) {
+        CARQUET_SET_ERROR(error, CARQUET_ERROR_INVALID_PAGE, "Dictionary page extends past end of file");
         return CARQUET_ERROR_INVALID_PAGE;
     }
 
@@ -861,18 +901,29 @@ static carquet_status_t load_next_page_mmap(
 
     /* Parse page header directly from mmap */
     int64_t page_offset = reader->data_start_offset + reader->current_page;
+    size_t header_avail = mmap_header_window(file_reader, page_offset);
+    if (header_avail < 8) {
+        CARQUET_SET_ERROR(error, CARQUET_ERROR_INVALID_PAGE, "Data page offset outside file");
+        return CARQUET_ERROR_INVALID_PAGE;
+    }
     const uint8_t* header_ptr = mmap_data + page_offset;
 
     parquet_page_header_t page_header;
     size_t header_size;
     carquet_status_t status = parquet_parse_page_header(
-        header_ptr, 256, &page_header, &header_size, error);
+        header_ptr, header_avail, &page_header, &header_size, error);
     if (status != CARQUET_OK) {
         return status;
     }
 
     if (page_header.type != CARQUET_PAGE_DATA && page_header.type != CARQUET_PAGE_DATA_V2) {
         CARQUET_SET_ERROR(error, CARQUET_ERROR_INVALID_PAGE, "Expected data page");
+        return CARQUET_ERROR_INVALID_PAGE;
+    }
+
+    if (!mmap_body_in_file(file_reader, page_offset, header_size,
+                           page_header.compressed_page_size)) {
+        CARQUET_SET_ERROR(error, CARQUET_ERROR_INVALID_PAGE, "Data page extends past end of file");
         return CARQUET_ERROR_INVALID_PAGE;
     }
 
